@@ -11,7 +11,7 @@
 //!
 //! Script lines (`key=value` tokens):
 //!   case <name> trait=<reg|ro|fin> flavour=<value|ref|refmut|shared|sharedmut> spawn=<0|1>
-//!        reqbuf=<n> init=<v> policy=<ignore|fail> clients=<spec>,<spec>…
+//!        reqbuf=<n> init=<v> policy=<ignore|fail|send|sendgone> clients=<spec>,<spec>…
 //!        spec = L (local clone) | R:<max request>:<max reply>:<client-side max request> (own port)
 //!   call <c> cl=<i> m=<get|get_nc|add|add_nc|take|extra|extra_mut> nseg=<n> gated=<0|1> by=<n> pad=<n> rpad=<n>
 //!   step <c> | abort <c> | yield <n> | settle | kill | dropclient <i> | end
@@ -607,6 +607,16 @@ macro_rules! serve_fut {
         let mut server = $server;
         if $policy == "fail" {
             remoc::rtc::ServerBase::set_on_req_receive_error(&mut server, remoc::rtc::OnReqReceiveError::Fail);
+        }
+        if $policy == "send" || $policy == "sendgone" {
+            // receive errors are sent to a local listener; with or without a listener the server keeps serving
+            let (tx, rx) = tokio::sync::mpsc::channel(4096);
+            remoc::rtc::ServerBase::set_on_req_receive_error(&mut server, remoc::rtc::OnReqReceiveError::Send(tx));
+            if $policy == "send" {
+                Box::leak(Box::new(rx));
+            } else {
+                drop(rx);
+            }
         }
         server
     }};
